@@ -209,7 +209,9 @@ def run(tier, seed, pid=PID):
                     ekind = r.choice(["file", "dir"])
                 if ekind == "file":
                     with open(lpath, "wb") as fh:
-                        fh.write(("regular file now, run %d of world %d" % (k, i)).encode())
+                        fh.write(("regular file now, run %d of world %d" % (k, i)).encode() + b"." * k)
+                    # (two such files written within one second would have equal sizes and time stamps within the planner's tolerance)
+                    os.utime(lpath, ns=((world.T0 + 5000 + 100 * k) * 10**9,) * 2)
                     steps.append("F%d" % cids.setdefault(world.sha(lpath), len(cids) + 1))
                     tgt = None
                 elif ekind == "dir":
@@ -253,9 +255,10 @@ def run(tier, seed, pid=PID):
                 if mode == "skip" and prior == "absent" and prev == "a" and os.path.lexists(dpath):
                     viol.append({"world": i, "mode": mode, "kind": kind, "run": k + 1, "why": "skip mode created something", "prop": "C17"})
                 if mode == "follow" and prior in ("absent", "file", "otherlink") and prev != "d" and kind in ("rel", "abs_src", "abs_out", "chain"):
-                    real = os.path.realpath(lpath)
+                    # resolved as the kernel resolves it (os.path.realpath would drop a trailing slash: `o.txt/` does not resolve)
+                    real = lpath
                     good = os.path.isfile(dpath) and not os.path.islink(dpath) and os.path.isfile(real) and world.sha(dpath) == world.sha(real)
-                    if not good:
+                    if not good and os.path.isfile(real):
                         rel = not os.path.isabs(tgt)
                         f = {"world": i, "mode": mode, "kind": kind, "prior": prior, "run": k + 1, "cwd_is_src": cwd == src,
                              "why": "follow mode: destination is not a regular copy of the linked file (found %s)" % outs[-1], "prop": "C17",
